@@ -44,6 +44,9 @@ type Part struct {
 	// FieldDocs: one comment line per field of the struct being generated with what Context.Doc reports for
 	// the field object (tags in key order, doc lines) - what runtimedoc and the validators do per field.
 	FieldDocs bool `json:"field_docs,omitempty"`
+	// Octal: `const <Text> = 0644` - a legacy octal literal, which the formatter rewrites to 0o644 for modules whose
+	// go directive says 1.13 or later (the one formatting rule that depends on the language version).
+	Octal bool `json:"octal,omitempty"`
 	// Bulk: a valid declaration of about Bulk KiB (a generated table), named after Text.
 	Bulk int `json:"bulk,omitempty"`
 }
